@@ -693,5 +693,11 @@ def run(ctx):
         return col
     missing = [p for p in B.PATHS if not col.extra.get("B_path:" + p)]
     if missing:
+        # a path that answers malformed under the library at hand is never classified; the
+        # malformed answers are findings of their own, and those are what gets reported
+        known = set(e["bucket"] for e in core.load_known(PID) if e.get("status", "known") == "known")
+        if [k for k in col.buckets if k not in known]:
+            core.log("C02: response path(s) not classified: %s" % ", ".join(missing))
+            return col
         raise core.HarnessError("part B never exercised response path(s): %s" % ", ".join(missing))
     return col
